@@ -113,7 +113,9 @@ impl BuildOptimiser {
         let inner_steps = u64::max(1, u64::min(self.inner_steps, self.steps));
         let loops = (self.steps / inner_steps) as f64;
         let kt_ratio = match (self.kt_ratio, self.kt_finish) {
-            (Some(ratio), _) => 1. - ratio,
+            // A ratio above one would make the factor negative and flip the sign of the temperature (a zero temperature
+            // becomes -0.0, which accepts every worse move): the temperature is never scaled below zero.
+            (Some(ratio), _) => f64::max(0., 1. - ratio),
             (None, Some(finish)) if self.kt_start > 0. => {
                 f64::powf(finish / self.kt_start, 1. / loops)
             }
